@@ -23,7 +23,7 @@ import (
 //     package (module replace => /repo/kyaml, so it is the working tree's asset) and projected to the
 //     schema nodes that carry an x-kubernetes-patch-strategy.
 
-func stringSliceVar(dir, file, name string) ([]string, error) {
+func c04StringSliceVar(dir, file, name string) ([]string, error) {
 	_, files, err := parseDir(dir)
 	if err != nil {
 		return nil, err
@@ -178,7 +178,7 @@ func init() {
 		var b strings.Builder
 		b.WriteString("From Coq Require Import List String.\nImport ListNotations.\nOpen Scope string_scope.\n\n")
 
-		keys, err := stringSliceVar(filepath.Join(repo, "kyaml/yaml"), "rnode.go", "AssociativeSequenceKeys")
+		keys, err := c04StringSliceVar(filepath.Join(repo, "kyaml/yaml"), "rnode.go", "AssociativeSequenceKeys")
 		if err != nil {
 			return "", err
 		}
